@@ -908,6 +908,11 @@ class Parser:
                     # Parsing a kwarg
                     ensure(dyn_kwargs is None)
                     key = self.stream.current.value
+                    if any(key == other.key for other in kwargs):
+                        self.fail(
+                            f"keyword argument {key!r} repeated",
+                            self.stream.current.lineno,
+                        )
                     self.stream.skip(2)
                     value = self.parse_expression()
                     kwargs.append(nodes.Keyword(key, value, lineno=value.lineno))
